@@ -18,7 +18,7 @@ impl Parser for Function {
             tuple((
                 map(opt(tuple((tag("oneway"), blank))), |x| x.is_some()),
                 Type::parse,
-                blank,
+                opt(blank),
                 Ident::parse,
                 opt(blank),
                 tag("("),
@@ -42,9 +42,10 @@ impl Parser for Function {
                 )),
                 opt(blank),
                 opt(Annotations::parse),
+                opt(blank),
                 opt(list_separator),
             )),
-            |(oneway, r#type, _, name, _, _, arguments, _, _, _, throws, _, annotations, _)| {
+            |(oneway, r#type, _, name, _, _, arguments, _, _, _, throws, _, annotations, _, _)| {
                 let mut args = arguments.unwrap_or_default();
                 args.iter_mut().for_each(|f| {
                     if f.attribute == Attribute::Default {
